@@ -14,6 +14,9 @@ BASELINE_OFF = ("cd /repo && cargo nextest run --workspace --no-fail-fast --tool
 CLAIMS = {
 }
 
+# properties whose units are being repaired right now (not claimed until their check exits 0 on the unchanged tree again)
+HOLD = set(l.strip() for l in open(os.path.join(VERIF, "tools", "hold.txt")) if l.strip() and not l.startswith("#")) if os.path.exists(os.path.join(VERIF, "tools", "hold.txt")) else set()
+
 NOT_APPLICABLE = {
     "C05": "linearizability quantifies over thread interleavings: Kani has no threads and Verus would need the code rewritten into its "
            "permission/atomic-invariant types (a model, not the code); the sequential core is covered under C04 (DESIGN.md 6)",
@@ -43,7 +46,7 @@ def main():
     props = [json.loads(l)["id"] for l in open(os.path.join(VERIF, "properties.jsonl"))]
     checks, na = [], []
     for p in props:
-        if p in CLAIMS and serves.get(p):
+        if p in CLAIMS and serves.get(p) and p not in HOLD:
             c = CLAIMS[p]
             checks.append({
                 "property_id": p,
@@ -59,7 +62,8 @@ def main():
         elif p in NOT_APPLICABLE:
             na.append({"property_id": p, "reason": NOT_APPLICABLE[p]})
         else:
-            na.append({"property_id": p, "reason": "no unit built yet for this property (see DESIGN.md section 5 for the plan); not claimed"})
+            na.append({"property_id": p, "reason": ("units exist but are being repaired after the fix: commits; not claimed until the check exits 0 again" if p in HOLD else
+                                                    "no unit built yet for this property (see DESIGN.md section 5 for the plan); not claimed")})
     m = {
         "version": 1,
         "setup_cmd": "python3 tools/selfcheck.py",
